@@ -38,7 +38,7 @@ def make(ck, rnd, n, pid=PID):
                 for l in f.ins:
                     if l is not None:
                         d[:, l.index] = 0
-        mt = dict(reuse=reuse, strip=strip, circuit=gen.circuit_state(c), lanes=lanes, delays=d.tolist(), caps=caps, inw=inw, cls=cls.__name__, offgrid=offgrid,
+        mt = dict(reuse=reuse, strip=strip, warm=wrec.rand_inputs(rnd, c, lanes, multi=True) if rnd.random() < 0.4 else None, circuit=gen.circuit_state(c), lanes=lanes, delays=d.tolist(), caps=caps, inw=inw, cls=cls.__name__, offgrid=offgrid,
                   desc='%s caps=%s offgrid=%s reuse=%s strip=%s' % (cls.__name__, caps if isinstance(caps, int) else 'per-line', offgrid, reuse, strip))
         recs.append(build(mt, pid))
         metas.append(mt)
@@ -52,7 +52,7 @@ def build(mt, pid=PID):
     rec = wrec.base_record(pid, c, mt['lanes'], np.zeros_like(d) if mt['offgrid'] else d, True, mt['inw'])
     rec['has']['c03'] = True
     try:
-        w = wrec.run_wave(getattr(wave_sim, mt['cls']), c, d, mt['lanes'], mt['caps'], mt['inw'], reuse=mt.get('reuse', False), strip=mt.get('strip', False))
+        w = wrec.run_wave(getattr(wave_sim, mt['cls']), c, d, mt['lanes'], mt['caps'], mt['inw'], reuse=mt.get('reuse', False), strip=mt.get('strip', False), warmup=mt.get('warm'))
         enc = wrec.Enc()
         rec.update(wrec.observe(w, c, mt['lanes'], enc, lines=not mt.get('reuse', False)))
         if mt['offgrid']:
